@@ -8,8 +8,17 @@ import OV.Lemmas.C07Match
 
   Model: `OV.Model.C07Graph` (graphs with bodies, `evalGraph`), `OV.Model.C07Apply`
   (`applyAt`, `registerInits`, `updOpsets`, `passLoop`/`applyRules`, `applyToModel`, `asFunction`).
-  A match is *given* (`Match`: root, matched nodes, bindings, outputs) — the matcher is C06's.
   Every theorem is about the model; the model is tied to /repo by `harness/c07.py` on every run.
+
+  SCOPE, said plainly.  The frame, equivalence, validity and single-assignment theorems (`applyAt_frame_*`,
+  `applyAt_position`, `applyAt_equiv*`, `applyAt_wf`, `applyAt_defs_once`) are statements about the splice on
+  node lists, `g.setNodes (spliceNodes g.nodes root matched repl true)` — `remove_nodes=True`, `repl` given
+  with its final names — NOT about the model's whole step `applyAt = renamePassthru ∘ setNodes (spliceNodes
+  (retireOld …) … (transferNames …))`.  The link is `applyAt_eq_splice` / `applyAt_equiv_applyAt`
+  (`remove_nodes=True`, `NoPassthru`).  About `applyAt` itself: `applyAt_ids`, `applyAt_signature(_fresh)`.
+  Nothing semantic is proved about `tryRule`/`tryRules` (instantiate, naming, tagging, as_function): the
+  `applyRules_*` theorems ASSUME the per-application step (`hstep`), `passLoop_terminates` ASSUMES `StepShape`.
+  The match may be given (`SpliceOK`) or produced by the model's own matcher `matchAt` (section matcher ∘ splice).
 -/
 namespace OV.Props.C07
 open OV.C07
@@ -170,7 +179,9 @@ theorem spliceNodes_eq (pre0 post repl : List Node) (root : Node) (matched : Lis
   rw [if_pos rfl, e, List.filter_append, List.filter_append, List.filter_append, h0, h1, h2]
   rfl
 
-/-- **Equivalence of the splice.**  For a host graph (main graph, body or function body) whose
+/-- **Equivalence of the splice (node-list form of the step; `remove_nodes=True` only).**  This is about
+`g.setNodes (spliceNodes …)` with `repl` given under its final names, under `SpliceOK`, `hnew`, `ReplEquiv`;
+for the model's `applyAt` see `applyAt_equiv_applyAt`.  For a host graph (main graph, body or function body) whose
 node list is `pre0 ++ root :: post`, a match given by the ids `matched` whose last node is the
 root, and a replacement that computes the same function as the matched nodes: the graph with
 `spliceNodes … true` as its node list has the same meaning as the host — for every operator
@@ -420,7 +431,9 @@ application (`tryRules … = applied`) and by writing rewritten bodies back into
 holds between the input and the output of the whole pass — however many applications there were,
 and also when a later application consumes nodes an earlier one produced.  With
 `R g g' := ∀ d outer args, evalGraph sem d outer g' args = evalGraph sem d outer g args`,
-`hstep` is what `applyAt_equiv` provides for one application. -/
+`hstep` is what `applyAt_equiv` is meant to provide for one application — it is an ASSUMPTION here: it is
+nowhere discharged for `tryRules`, and no instance with a non-empty rule list is exhibited.  This theorem (and
+`applyRules_wf`, `applyRules_equiv`, which instantiate it) is an induction scheme over the pass. -/
 theorem applyRules_preserves (rules : List Rule) (kind : Kind)
     (recurse : PassSt → Graph → Except Err (PassSt × Graph))
     (R : Graph → Graph → Prop) (hrefl : ∀ g, R g g) (htrans : ∀ a b c, R a b → R b c → R a c)
@@ -499,7 +512,8 @@ structure SpliceWF (outer : List Name) (g : Graph) (P : Node → Bool) (pre0 : L
   replOuts₁ : ∀ x ∈ repl.flatMap (·.outputs), x ∈ root.outputs ∨ x ∈ H
   replOuts₂ : ∀ x ∈ root.outputs, x ∈ repl.flatMap (·.outputs)
 
-/-- **Validity of the splice** (one scope level: single assignment, no redefinition of a visible
+/-- **Validity of the splice** (about `g.setNodes (spliceNodes …)`, `remove_nodes=True`, under `SpliceWF`; not
+about the whole `applyAt`; one scope level: single assignment, no redefinition of a visible
 name, definition before use including the reads of bodies, graph outputs defined): if the host
 graph is well-formed in a scope where `outer` is visible, so is the graph with `spliceNodes … true`
 as its node list. -/
@@ -603,7 +617,7 @@ theorem writeBack_wf (outer : List Name) (g : Graph) (cur : Nat) (subs' : List (
   simp only [e1, e2, e3, e4, e5]
   exact Bool.and_eq_true_iff.mpr ⟨wfNodes_map_shrink f hout hreads _ _ hw, ho⟩
 
-/-- **Validity through a whole pass**: if every single application keeps the graph well-formed
+/-- **Validity through a whole pass** (induction scheme: `hstep` is assumed, not discharged for `tryRules`): if every single application keeps the graph well-formed
 (`applyAt_wf` for the given matches) and rewritten bodies capture no more than before, the output
 of `passLoop` — any number of repeated/overlapping applications — is well-formed. -/
 theorem applyRules_wf (outer : List Name) (rules : List Rule) (kind : Kind)
@@ -685,7 +699,7 @@ example {V} (sem : Sem V) (d : Nat) :
   ⟨⟨fun _ _ => rfl, by decide⟩, trivial⟩
 
 /-- **Equivalence through a whole pass**: if every single application keeps the meaning
-(`applyAt_equiv` for the given matches) and the recursion into bodies hands back equivalent bodies
+(`applyAt_equiv` for the given matches — the assumption `hstep`, not discharged for `tryRules`) and the recursion into bodies hands back equivalent bodies
 whose captures are the old ones or fewer (`BodiesShrink`), the output of `passLoop` — any number of repeated/overlapping applications
 — has the meaning of its input. -/
 theorem applyRules_equiv {V} (sem : Sem V) (d : Nat) (rules : List Rule) (kind : Kind)
@@ -755,7 +769,8 @@ theorem nodeById_spec (g : Graph) (cur : Nat) (node : Node) (h : nodeById g cur 
   unfold nodeById at h
   exact ⟨List.mem_of_find?_eq_some h, by simpa using List.find?_some h⟩
 
-/-- **One pass terminates under NoRematch**: with fuel above the potential `mu` — the number of
+/-- **One pass terminates under NoRematch** (ASSUMES `StepShape` for `tryRules`, which is not derived; the
+only witnesses in this file use the empty rule list): with fuel above the potential `mu` — the number of
 nodes at or after the cursor, original ones counted `K + 1` times — `passLoop` never runs out of
 fuel: every node the pass starts with is visited at most once, every replacement node once.
 (Errors of the rules themselves — opset clash, as_function — are other outcomes; the recursion
@@ -876,7 +891,9 @@ theorem applyAt_ids (d : Nat) (g : Graph) (m : Match) (new : List Node) (outs : 
 
 /-! ## Every name is defined once over all scopes (the clause C07-D7 violated before c9666a4) -/
 
-/-- `collectNames` lists the inputs, initializers and node outputs of a graph *and of all its bodies*.
+/-- (About `g.setNodes (spliceNodes …)`, `remove_nodes=True`; hypotheses `hroot`, `hpostU`, `hnew`, `hflat`
+— replacement nodes without bodies —, `hnd`, `houts`.)
+`collectNames` lists the inputs, initializers and node outputs of a graph *and of all its bodies*.
 If it has no duplicates in the host, it has none after the splice, provided the replacement nodes
 carry no bodies and each of their outputs is either a name the root defined (name transfer) or a
 name outside `collectNames` of the host — which is what `_fresh_value_name` gives (`freshIn_spec`:
@@ -950,7 +967,8 @@ example : (collectNames 3 (exHost.setNodes (spliceNodes exHost.nodes 2 [2, 1]
 
 /-! ## `commute=True` -/
 
-/-- Every variant `RewriteRule.commute` produces differs from the rule in the pattern's operand
+/-- (Definitional: seven `rfl`s after unfolding `commuteRule` — it pins the model's definition; the content
+is the `commute=True` tie.)  Every variant `RewriteRule.commute` produces differs from the rule in the pattern's operand
 order only: name, `remove_nodes`, `as_function`, the condition and the replacement are the rule's
 (a variant that lost `as_function` would splice a call to a function nobody creates), and the
 pattern has the same outputs, root and number of nodes. -/
@@ -1008,6 +1026,61 @@ theorem renamePassthru_id (d : Nat) (pairs : List (Name × NewOut))
     subst ht
     simp only [List.foldl_cons]
     exact ih (fun q hq => h q (by simp [hq])) g
+
+/-- **Bridge: the model's own rewrite step is the splice on node lists** — for `remove_nodes=True`
+and a replacement that returns only new values (`NoPassthru`): `retireOld` and `renamePassthru` are the
+identity, so `applyAt` is the host with `spliceNodes` of the name-transferred replacement.  (Not covered:
+`remove_nodes=False`, returned existing values.) -/
+theorem applyAt_eq_splice (d : Nat) (g : Graph) (m : Match) (new : List Node) (outs : List NewOut)
+    (h : NoPassthru outs) :
+    applyAt d g m new outs true =
+      g.setNodes (spliceNodes g.nodes m.root m.nodes
+        (transferNames ((dedupOuts [] m.outputs).zip outs) new) true) := by
+  unfold applyAt
+  rw [renamePassthru_id d _ (fun p hp => h p.2 (List.of_mem_zip hp).2)]
+  simp [retireOld]
+
+/-- **Equivalence for the model's own `applyAt`** (`remove_nodes=True`, `NoPassthru`): `applyAt_equiv`
+transported along `applyAt_eq_splice`.  The hypotheses are those of `applyAt_equiv` stated for the
+name-transferred replacement `transferNames pairs new` (`SpliceOK` for the given match, `hnew`,
+`ReplEquiv`); that `transferNames` produces such a list is assumed, not proved. -/
+theorem applyAt_equiv_applyAt {V} (sem : Sem V) (d d' : Nat) (outer : Env V) (args : List (Option V))
+    (g : Graph) (m : Match) (pre0 post new : List Node) (root : Node) (outs : List NewOut) (H : List Name)
+    (hno : NoPassthru outs) (hroot : m.root = root.id)
+    (hg : g.nodes = pre0 ++ root :: post)
+    (hpre : ∀ n ∈ pre0, n.id ≠ root.id) (hpost : ∀ n ∈ post, n.id ≠ root.id)
+    (hnew : ∀ n ∈ transferNames ((dedupOuts [] m.outputs).zip outs) new, m.nodes.contains n.id = false)
+    (ok : SpliceOK (fun n => m.nodes.contains n.id) pre0 root post H g.outputs)
+    (hrepl : ReplEquiv sem (evalGraph sem d) H (pre0.filter (fun n => m.nodes.contains n.id) ++ [root])
+      (transferNames ((dedupOuts [] m.outputs).zip outs) new)) :
+    evalGraph sem (d + 1) outer (applyAt d' g m new outs true) args = evalGraph sem (d + 1) outer g args := by
+  rw [applyAt_eq_splice d' g m new outs hno, hroot]
+  exact applyAt_equiv sem d outer args g pre0 post _ root m.nodes H hg hpre hpost hnew ok hrepl
+
+/-- non-vacuity of the bridge: on `exHost` the model's `applyAt` replaces `z = Abs(r)` (match `[3]`) by a
+new node object with a fresh output name, which takes over the name `z` -/
+example {V} (sem : Sem V) (d : Nat) (outer : Env V) (args : List (Option V)) :
+    evalGraph sem (d + 1) outer
+      (applyAt 10 exHost { root := 3, nodes := [3], bindings := [(0, some "r")], outputs := ["z"] }
+        [.mk 7 "Abs" "" "" [some "r"] ["%7_0"] [] [] [] []] [.fresh "%7_0"] true) args =
+      evalGraph sem (d + 1) outer exHost args :=
+  applyAt_equiv_applyAt sem d 10 outer args exHost _ [exNeg, exOther, exRelu] [] _ exAbs _ []
+    (by intro o ho; exact ⟨"%7_0", by simpa using ho⟩) rfl rfl (by decide) (by decide) (by decide)
+    (by constructor <;> decide)
+    (fun ρ => by
+      have e1 : List.filter (fun n : Node => ([3] : List Nat).contains n.id) [exNeg, exOther, exRelu] = [] := by decide
+      have e2 : transferNames ((dedupOuts [] ["z"]).zip [NewOut.fresh "%7_0"])
+          [Node.mk 7 "Abs" "" "" [some "r"] ["%7_0"] [] [] [] []] =
+          [Node.mk 7 "Abs" "" "" [some "r"] ["z"] [] [] [] []] := by
+        simp [transferNames, dedupOuts, renNode, renName, Node.id, Node.op, Node.domain, Node.overload, Node.inputs,
+          Node.outputs, Node.attrs, Node.mprops, Node.caps, Node.subs]
+      show ORel [] (evalNodes _ ρ (List.filter (fun n : Node => ([3] : List Nat).contains n.id) [exNeg, exOther, exRelu] ++ [exAbs]))
+        (evalNodes _ ρ (transferNames ((dedupOuts [] ["z"]).zip [NewOut.fresh "%7_0"]) [Node.mk 7 "Abs" "" "" [some "r"] ["%7_0"] [] [] [] []]))
+      rw [e1, e2, List.nil_append]
+      have e3 : evalNodes (evalNode sem (evalGraph sem d)) ρ [Node.mk 7 "Abs" "" "" [some "r"] ["z"] [] [] [] []] =
+          evalNodes (evalNode sem (evalGraph sem d)) ρ [exAbs] := rfl
+      rw [e3]
+      exact ORel.refl _ _)
 
 /-- Graph input names, output names and initializers are untouched by the splice when the
 replacement returns new values. -/
